@@ -195,9 +195,13 @@ def run_case(case):
     Mtot = int(np.prod(pts))
     coord = lops.make_coord(case["cseed"], pts, grid, case["ccls"])
     x = make_image(rng, case["img"], batch + grid, nd)
+    single = sum(case["rs"]) % 7 == 0          # complex64 data path
+    if single:
+        x = x.astype(np.complex64)
     x0, c0 = x.copy(), coord.copy()
     sig = "|".join(map(str, [nd, "".join("o" if g % 2 else "e" for g in grid), len(batch),
-                             case["ccls"], case["img"], ov, w, "p2" if case["pts2d"] else "p1"]))
+                             case["ccls"], case["img"], ov, w, "p2" if case["pts2d"] else "p1",
+                             "c64" if single else "c128"]))
     wit = {k: case[k] for k in ("grid", "M", "batch", "ccls", "img", "oversamp", "width",
                                 "cseed", "pts2d")}
     wit["nd"] = nd
@@ -259,16 +263,18 @@ def run_case(case):
     # half-integer classes) sit on the kernel's discontinuity (I0(0) = 1 at |u| = 1): a
     # rounding difference of 1 ulp in k*scale+shift legitimately includes or drops an edge
     # sample, so there both results are only required to agree within the accuracy class.
-    ptol = 1e-9 if case["ccls"] not in ("integer", "ties") else 2 * (th or 0.1)
-    obs["periodicity" if ptol == 1e-9 else "periodicity_ties"] = pe
+    ptol = (1e-9 if not single else 1e-4) if case["ccls"] not in ("integer", "ties") \
+        else 2 * (th or 0.1)
+    obs["periodicity" if ptol <= 1e-4 else "periodicity_ties"] = pe
     if not pe <= ptol:
         return violated(sig, "not periodic in the coordinates: shifting axis %d by %d changes "
                         "the result by %.3g" % (d, shift[d], pe), wit, mech="periodicity",
                         obs=obs)
     # exact adjointness
-    yy = crandn(rng, y.shape)
+    cdt = np.complex64 if single else np.complex128
+    yy = crandn(rng, y.shape, cdt)
     xa = sp.nufft_adjoint(yy, coord, batch + grid, oversamp=ov, width=w)
-    xg = crandn(rng, batch + grid)
+    xg = crandn(rng, batch + grid, cdt)
     yg = sp.nufft(xg, coord, oversamp=ov, width=w)
     lhs, rhs = inner(yg, yy), inner(xg, xa)
     sc = nrm(yg) * nrm(yy) + nrm(xg) * nrm(xa) + 1e-300
@@ -277,7 +283,7 @@ def run_case(case):
     if tuple(xa.shape) != tuple(batch + grid):
         return violated(sig, "nufft_adjoint shape %s, requested %s" % (xa.shape, batch + grid),
                         wit, mech="adjoint-shape")
-    if not abs(lhs - rhs) <= 1e-10 * sc:
+    if not abs(lhs - rhs) <= (1e-10 if not single else 1e-4) * sc:
         return violated(sig, "nufft_adjoint is not the adjoint of nufft: %s vs %s" % (lhs, rhs),
                         wit, mech="adjoint", obs=obs)
     # Gram: nufft_adjoint(nufft(x)) ~ E^H E x within 2 eps
